@@ -143,7 +143,15 @@ def replay(path):
     """re-runs the recorded case on the real crate (a concurrent one under its recorded schedule) and lets TLC judge the new trace"""
     body = json.load(open(path))
     h = build_harness()
-    if body.get('kind') == 'conc':
+    if body.get('kind') == 'tok':
+        r = subprocess.run([h, 'tok-all', '--op', body['op']], capture_output=True, text=True)
+        sys.stdout.write(r.stdout)
+        sys.stderr.write(r.stderr)
+        for line in r.stdout.splitlines():
+            if '"ev":"tok"' in line:
+                v = json.loads(line)
+                print('item tokens alive after the end (%s, %s): %d of %d -> %s' % (v['op'], v['ending'], v['live'], v['emitted'], 'REJECTED (TokTrace!ItemsReleased)' if v['live'] or v['fin'] != 'ok' else 'accepted'))
+    elif body.get('kind') == 'conc':
         import os, shutil
         import conccheck
         r = subprocess.run([h, 'conc-one', '--case', path], capture_output=True, text=True)
